@@ -497,7 +497,27 @@ pub fn gen_pixel_stream(
         // the same shapes also mirrored (right to left, bottom to top) and transposed (columns):
         // decided up front so that the shape generators below stay direction-agnostic
         let reflect = rng.below(8);
-        match rng.below(12) {
+        match rng.below(13) {
+            12 => {
+                // rows that are each of one colour (stripes, solid blocks): widths around the
+                // capacities, the next row in the same columns with another (or the same) colour
+                let widths = [cap_row - 1, cap_row, cap_row + 1, cap_row + 2, 2 * cap_row, 2 * cap_row + 1, 3 * cap_row, lw];
+                let w = (*rng.pick(&widths)).clamp(1, lw);
+                let rows = rng.range(1, 5.min(lh));
+                let x0 = rng.range(0, lw - w);
+                let y0 = rng.range(0, lh - rows);
+                let mut c = tags.one();
+                for r in 0..rows {
+                    if r > 0 && rng.chance(3, 4) {
+                        c = tags.one();
+                    }
+                    for i in 0..w {
+                        if v.len() < max_pixels {
+                            v.push(((x0 + i) as i32, (y0 + r) as i32, c));
+                        }
+                    }
+                }
+            }
             0 | 1 => {
                 // one horizontal run, length around the capacities
                 let lens = [1, 2, cap_row - 1, cap_row, cap_row + 1, 2 * cap_row - 1, 2 * cap_row, 2 * cap_row + 1, 3 * cap_row];
